@@ -1627,6 +1627,21 @@ def judge(rep, step, res, reply, count=True):
     if reply == "unmodelled":
         rep.count("model:unmodelled")
         return
+    if reply.startswith("err:") and " alt=" in reply:
+        # the coded model rejects the call for an incidental reason; its natural total extension says what the
+        # only admissible result is if the implementation accepts it
+        coded, alt = reply.split(" alt=", 1)
+        if res["text"] == "err":
+            return
+        if res["text"] == alt:
+            rep.count("implementation accepts what the coded model rejects (" + coded + "), result = natural extension: " + step["op"]
+                      + (":" + step.get("kind", "") if step["op"] == "dt" else ""))
+            return
+        rep.fail(f"{step['op']}: the call is rejected by the code as it was modelled ({coded}); the implementation accepts it, "
+                 f"and the only table the property allows then is `{alt[:300]}` (the operation's meaning on the other "
+                 f"arguments: join of the non-empty arguments in order / rows by a list / variables by name), but it returned "
+                 f"`{res['text'][:300]}`", step, detail=dict(implementation=res["text"], model=reply))
+        return
     m = "err" if reply.startswith("err:") else reply
     if m != res["text"]:
         rep.disagree(f"drivers/C12.lean `{step['op']}` vs the real Points/Space", step,
